@@ -4,6 +4,7 @@
 P="$1"; PROP="$2"; DEMO="$3"
 W=/tmp/wr-main
 git -C $W checkout -q -- . && git -C $W clean -fdq
+git -C $W checkout -q --detach $(git -C /repo rev-parse HEAD)
 git -C $W apply "$P" || { echo "PATCH DOES NOT APPLY"; exit 3; }
 cd /verif
 QKV_REPO=$W ./check $PROP quick 2>&1 | grep -v "^WARNING\|^I0000\|^KNOWN" | tail -4
